@@ -16,7 +16,7 @@ import (
 
 var c06Classes = []string{
 	"bad-target-first", "bad-target-last", "bad-target-rollout",
-	"never-healthy-all", "never-healthy-one", "never-healthy-rollout", "never-healthy-new-service",
+	"never-healthy-all", "never-healthy-one", "never-healthy-rollout", "never-healthy-new-service", "never-healthy-hanging",
 	"badcert", "missingcert", "pages-missing", "pages-unparsable", "pages-empty",
 	"acme-wildcard", "conflict-new", "conflict-move",
 	"unknown-pause", "unknown-stop", "unknown-resume", "unknown-remove", "unknown-rollout-deploy", "unknown-rollout-set", "unknown-rollout-stop",
@@ -32,6 +32,9 @@ type c06Scenario struct {
 }
 
 func failProbe(n int, at time.Duration) ProbeAct { return ProbeAct{Status: 500} }
+
+// hangProbe: the health endpoint accepts the probe and never answers
+func hangProbe(n int, at time.Duration) ProbeAct { return ProbeAct{Status: 200, Delay: time.Hour} }
 
 func c06Gen(rng *rand.Rand, idx int) c06Scenario {
 	sc := c06Scenario{Idx: idx, Class: c06Classes[idx%len(c06Classes)]}
@@ -120,6 +123,14 @@ func c06Run(t *testing.T, run *Run, sc c06Scenario, rng *rand.Rand) {
 			}
 		}
 		rejected = f.Targets
+	case "never-healthy-hanging":
+		// every probe hangs: one is in flight (it would run until the 5s health-check timeout) at the
+		// moment the deploy gives up
+		f.HCTO = 5 * time.Second
+		for _, tn := range f.Targets {
+			w.AddTarget(tn, hangProbe)
+		}
+		rejected = f.Targets
 	case "never-healthy-rollout":
 		f = Cmd{Kind: "rollout-deploy", Svc: victim, Targets: g.targets(victim, "r"), DeployTO: 2 * time.Second, DrainTO: time.Second}
 		w.AddTarget(f.Targets[0], failProbe)
@@ -163,6 +174,25 @@ func c06Run(t *testing.T, run *Run, sc c06Scenario, rng *rand.Rand) {
 		if sc.Class == "conflict-new" {
 			f.Svc = "s9"
 		}
+		if len(f.Targets) >= 2 && rng.IntN(2) == 0 {
+			// the last target needs 1.5s for its first probe; the others answer their first probe at
+			// once and take 900ms for every later one: when the conflict is reported (1.5s) a probe of
+			// each of them is in flight
+			f.HCIv, f.HCTO = time.Second, 5*time.Second
+			for i, tn := range f.Targets {
+				if i == len(f.Targets)-1 {
+					w.AddTarget(tn, func(n int, at time.Duration) ProbeAct { return ProbeAct{Status: 200, Delay: 1500 * time.Millisecond} })
+				} else {
+					w.AddTarget(tn, func(n int, at time.Duration) ProbeAct {
+						if n == 0 {
+							return ProbeAct{Status: 200}
+						}
+						return ProbeAct{Status: 200, Delay: 900 * time.Millisecond}
+					})
+				}
+			}
+			run.Count("conflict_with_probe_in_flight", 1)
+		}
 		rejected = f.Targets
 	case "conflict-race":
 		c06Race(w, run, sc, g, existing, list)
@@ -197,6 +227,9 @@ func c06Run(t *testing.T, run *Run, sc c06Scenario, rng *rand.Rand) {
 		}
 		sc.Fail = f
 	}
+	// what the targets of the configuration see of the health checks (path, cadence) before the command
+	time.Sleep(12 * time.Second)
+	probesBefore := probeView(w, w.Now()-10*time.Second, w.Now())
 	rec := f.Exec(w, w.Router)
 	fail := func(sig, format string, a ...any) {
 		run.Violate(sig, fmt.Sprintf(format, a...), sc, func() []string { return w.Trace(200) })
@@ -223,12 +256,27 @@ func c06Run(t *testing.T, run *Run, sc c06Scenario, rng *rand.Rand) {
 					return
 				}
 			}
+			for _, pr := range ft.ProbeLog() {
+				if pr.Start <= rec.Ret && (!pr.Ended || pr.End > rec.Ret+Eps) {
+					fail("probe-open-after-failure:"+sc.Class, "target %s of the failed command (returned %v): the probe started at %v was still open afterwards (ended=%v at %v)", tn, rec.Ret, pr.Start, pr.Ended, pr.End)
+					return
+				}
+			}
 			for _, q := range ft.ReqLog() {
 				fail("traffic-to-rejected-target:"+sc.Class, "target %s of the failed command received client request %s", tn, q.ID)
 				return
 			}
 		}
 	}
+	// ... and everything that was running keeps running: the targets in service are probed as before
+	probesAfter := probeView(w, w.Now()-10*time.Second, w.Now())
+	for k, v := range probesBefore {
+		if probesAfter[k] != v {
+			fail("probing-changed:"+sc.Class, "failing command (%s, error %q): health checks seen by %s were %q before it and %q afterwards", sc.Class, rec.Err, k, v, probesAfter[k])
+			return
+		}
+	}
+	run.Count("probe_cadences_compared", len(probesBefore))
 	// a command that fails but rewrites the state file: whatever the failed command left behind in
 	// memory would be persisted now
 	w.Cmd("rollout-stop", "nosuch", func() error { return w.Router.StopRollout("nosuch-service") })
